@@ -31,7 +31,7 @@ def main():
         loaderr = 'ERROR load' in p.stdout
         return dict(name=os.path.basename(f)[:-5], expect=spec.get('expect', ''), status=status, keys=keys, load_error=loaderr,
                     tail=p.stdout[-400:] if status == 'error' or loaderr else '')
-    with ThreadPoolExecutor(max_workers=6) as ex:
+    with ThreadPoolExecutor(max_workers=int(os.environ.get('VARIANT_WORKERS', '6'))) as ex:
         res = list(ex.map(run, files))
     rep = dict(property_id=pid, mutants_applied=0, mutants_flagged=0, benign_applied=0, benign_silent=0, skipped=0,
                mutants_missed=[], benign_flagged=[], wrong_obligation=[], errors=[], results=res)
